@@ -11,37 +11,154 @@ import (
 )
 
 // The whitelist: small pure functions whose whole meaning is integer / bit arithmetic.
-// Supported subset: integer and bool parameters and locals, read-only pointer-to-struct
-// parameters, one local struct value built field by field, if/else, tagless switch,
-// return, `for i := a; i < b; i++` with loop-invariant bounds, the arithmetic, bit and
-// comparison operators, conversions between integer types.
-// Type mapping: uint64/uint32/uint8 (and named types over them) -> BitVec n (wrap-around
-// is modelled); int/int64/time.Duration -> Int (no wrap: the theorems carry range
-// hypotheses); uint -> Nat (no underflow: checked by the `fn` correspondence ops).
+//
+// Supported subset
+//   - parameters and locals of integer / bool type, by-value or read-only pointer parameters of
+//     struct types all of whose fields are translatable (nested structs allowed), one local struct
+//     value built field by field;
+//   - "abstract" parameters: a pointer to a struct that is NOT translatable (tak.Position ...) may
+//     only be read through field paths of translatable type (`p.cfg.c.Mask`), through the accessor
+//     methods listed in `accessors` (`p.Size()`), or be passed on to a whitelisted method; every such
+//     read becomes an explicit parameter `p_cfg_c_Mask`, `p_Size` (sorted by name) of the Lean function;
+//   - statements: let-chains, if/else (with an init statement), tagless and tagged switch (no
+//     fallthrough/break), return (also several results -> tuple, named results), parallel and
+//     destructuring assignment, `for i := a; i < b; i++` with loop-invariant bounds (fuel b-a),
+//     `for cond { assignments }` (fuel given in the whitelist entry; the helper `<f>_loopK_more`
+//     says whether the condition still holds, i.e. the fuel did not suffice - the bridge theorems
+//     prove it false), `for { ...; return e; ... }` (fuel from the whitelist, result `Option`,
+//     `none` = fuel exhausted), `panic(..)` (result `Option`, `none` = panic);
+//   - expressions: the arithmetic, bit and comparison operators, conversions between integer
+//     types, calls of functions translated earlier in the whitelist (not of Option-valued ones);
+//   - "closure tables": a function whose body is a list of `name := func(..) .. {..}` followed by
+//     `return []T{name, ...}` (symmetry.symmetries) becomes one Lean function per closure plus a
+//     dispatcher indexed by `Fin n`; a local `name := func..` in a plain function becomes a helper whose leading
+//     parameters are the captured variables (which must never be reassigned in the enclosing function).
+//
+// Type mapping: uint64/uint32/uint16/uint8 (and named types over them) -> BitVec n (wrap-around
+// is modelled); int/int64/time.Duration -> Int (no wrap: the theorems carry range hypotheses);
+// int8/int16/int32 -> Int kept in range by `wrapN` after every arithmetic step and conversion
+// (parameters are assumed to be in range: Go cannot pass anything else, and the `fn.*` ops only
+// send in-range values); uint -> Nat (no underflow: checked by the `fn` correspondence ops).
+//
+// Anything else makes the translation of that function fail loudly (never a guess).  Two distinct
+// variables of the same name in one function are rejected (the continuation-passing translation
+// would otherwise let a block-scoped variable leak into the code after the block).
 type fnSpec struct {
 	dir, file string
 	recv      string // receiver type name, "" for plain functions
 	name      string
 	lean      string
+	group     string   // "" -> Funcs.lean, otherwise Funcs<group>.lean (imports the earlier files)
+	table     bool     // closure table (see above)
+	fuel      []string // fuel (a Lean term) of the k-th `for cond {}` / `for {}` loop
+	// views: for every abstract parameter the field paths / accessors / constant indices the function may read
+	// (space separated: "White cfg.c.Mask Size [Terminal_Flats]").  They - not the reads found in the body - make
+	// up the Lean parameter list, so that an edit that drops or reorders a read leaves the signature (and with it
+	// the driver and the other properties' builds) alone; a read outside the list fails loudly.
+	views map[string]string
 }
 
+// groups in file order; a function may only call functions of its own or an earlier group
+var groups = []string{"", "Tak", "Over", "Move", "Sym", "AI", "FPA", "Eval"}
+
 var whitelist = []fnSpec{
-	{"bitboard", "bits.go", "", "Precompute", "precompute"},
-	{"bitboard", "bits.go", "", "Grow", "grow"},
-	{"tak", "hash.go", "", "hash8", "hash8"},
-	{"tak", "hash.go", "", "hash64", "hash64"},
-	{"tak", "slide.go", "Slides", "Empty", "slidesEmpty"},
-	{"tak", "slide.go", "Slides", "Singleton", "slidesSingleton"},
-	{"tak", "slide.go", "Slides", "First", "slidesFirst"},
-	{"tak", "slide.go", "Slides", "Prepend", "slidesPrepend"},
-	{"tak", "slide.go", "SlideIterator", "Next", "slideIterNext"},
-	{"tak", "slide.go", "SlideIterator", "Ok", "slideIterOk"},
-	{"tak", "slide.go", "SlideIterator", "Elem", "slideIterElem"},
-	{"tei", "server.go", "", "calcBudget", "calcBudget"},
-	{"prove", "pn.go", "", "saturatingAdd", "saturatingAdd"},
-	{"prove", "dfpn.go", "proofNumbers", "exceeded", "pnExceeded"},
-	{"prove", "dfpn.go", "proofNumbers", "solved", "pnSolved"},
+	{dir: "bitboard", file: "bits.go", name: "Precompute", lean: "precompute"},
+	{dir: "bitboard", file: "bits.go", name: "Grow", lean: "grow"},
+	{dir: "tak", file: "hash.go", name: "hash8", lean: "hash8"},
+	{dir: "tak", file: "hash.go", name: "hash64", lean: "hash64"},
+	{dir: "tak", file: "slide.go", recv: "Slides", name: "Empty", lean: "slidesEmpty"},
+	{dir: "tak", file: "slide.go", recv: "Slides", name: "Singleton", lean: "slidesSingleton"},
+	{dir: "tak", file: "slide.go", recv: "Slides", name: "First", lean: "slidesFirst"},
+	{dir: "tak", file: "slide.go", recv: "Slides", name: "Prepend", lean: "slidesPrepend"},
+	{dir: "tak", file: "slide.go", recv: "SlideIterator", name: "Next", lean: "slideIterNext"},
+	{dir: "tak", file: "slide.go", recv: "SlideIterator", name: "Ok", lean: "slideIterOk"},
+	{dir: "tak", file: "slide.go", recv: "SlideIterator", name: "Elem", lean: "slideIterElem"},
+	{dir: "tei", file: "server.go", name: "calcBudget", lean: "calcBudget"},
+	{dir: "prove", file: "pn.go", name: "saturatingAdd", lean: "saturatingAdd"},
+	{dir: "prove", file: "dfpn.go", recv: "proofNumbers", name: "exceeded", lean: "pnExceeded"},
+	{dir: "prove", file: "dfpn.go", recv: "proofNumbers", name: "solved", lean: "pnSolved"},
+
+	// group Tak: tak/pieces.go, Position.ToMove, Position.Hash
+	{dir: "tak", file: "pieces.go", name: "MakePiece", lean: "makePiece", group: "Tak"},
+	{dir: "tak", file: "pieces.go", recv: "Piece", name: "Color", lean: "pieceColor", group: "Tak"},
+	{dir: "tak", file: "pieces.go", recv: "Piece", name: "Kind", lean: "pieceKind", group: "Tak"},
+	{dir: "tak", file: "pieces.go", recv: "Piece", name: "IsRoad", lean: "pieceIsRoad", group: "Tak"},
+	{dir: "tak", file: "pieces.go", recv: "Color", name: "Flip", lean: "colorFlip", group: "Tak"},
+	{dir: "tak", file: "game.go", recv: "Position", name: "ToMove", lean: "positionToMove", group: "Tak", views: map[string]string{"p": "move"}},
+	{dir: "tak", file: "hash.go", recv: "Position", name: "Hash", lean: "positionHash", group: "Tak", views: map[string]string{"p": "Black Caps Standing White hash move"}},
+
+	// group Over: bitboard.Flood and the game-end helpers of tak/game.go
+	{dir: "bitboard", file: "bits.go", name: "Flood", lean: "flood", group: "Over", fuel: []string{"66"}},
+	{dir: "tak", file: "game.go", recv: "Position", name: "countFlats", lean: "positionCountFlats", group: "Over", views: map[string]string{"p": "Black Caps Standing White"}},
+	{dir: "tak", file: "game.go", recv: "Position", name: "flatsWinner", lean: "positionFlatsWinner", group: "Over", views: map[string]string{"p": "Black Caps Standing White cfg.BlackWinsTies"}},
+	{dir: "tak", file: "game.go", recv: "Position", name: "GameOver", lean: "positionGameOver", group: "Over", views: map[string]string{"p": "Black Caps Standing White blackCaps blackStones cfg.BlackWinsTies cfg.c.Mask hasRoad whiteCaps whiteStones"}},
+
+	// group Move: tak/slide.go Len, tak/move.go small methods
+	{dir: "tak", file: "slide.go", recv: "Slides", name: "Len", lean: "slidesLen", group: "Move", fuel: []string{"8"}},
+	{dir: "tak", file: "move.go", recv: "Move", name: "IsSlide", lean: "moveIsSlide", group: "Move"},
+	{dir: "tak", file: "move.go", recv: "Move", name: "Equal", lean: "moveEqual", group: "Move"},
+	{dir: "tak", file: "move.go", recv: "Move", name: "Dest", lean: "moveDest", group: "Move"},
+
+	// group Sym: symmetry/canonical.go
+	{dir: "symmetry", file: "canonical.go", name: "symmetries", lean: "symmetries", group: "Sym", table: true},
+	{dir: "symmetry", file: "canonical.go", name: "preferMove", lean: "preferMove", group: "Sym"},
+
+	// group AI: ai/minimax.go
+	{dir: "ai", file: "minimax.go", name: "teSuffices", lean: "teSuffices", group: "AI"},
+
+	// group FPA: cmd/internal/playtak/fpa.go
+	{dir: "cmd/internal/playtak", file: "fpa.go", name: "isCentered", lean: "isCentered", group: "FPA", views: map[string]string{"p": "Size"}},
+	{dir: "cmd/internal/playtak", file: "fpa.go", name: "isCenterAdjacent", lean: "isCenterAdjacent", group: "FPA", views: map[string]string{"p": "Size"}},
+	{dir: "cmd/internal/playtak", file: "fpa.go", name: "distance", lean: "distance", group: "FPA"},
+	{dir: "cmd/internal/playtak", file: "fpa.go", name: "dir", lean: "dir", group: "FPA"},
+
+	// group Eval: ai/evaluate.go terminal scores, bitboard.Dimensions (used by scoreGroups)
+	{dir: "bitboard", file: "bits.go", name: "Dimensions", lean: "dimensions", group: "Eval", fuel: []string{"70", "70", "70", "70"}},
+	{dir: "ai", file: "evaluate.go", name: "evaluateTerminal", lean: "evaluateTerminal", group: "Eval", views: map[string]string{"p": "BlackStones MoveNumber Size WhiteStones WinDetails move", "w": "[Terminal_Flats] [Terminal_OpponentReserves] [Terminal_Plies] [Terminal_Reserves]"}},
+	{dir: "ai", file: "evaluate.go", name: "EvaluateWinner", lean: "evaluateWinner", group: "Eval", views: map[string]string{"p": "Black Caps Standing White blackCaps blackStones cfg.BlackWinsTies cfg.c.Mask hasRoad whiteCaps whiteStones move"}},
 }
+
+// accessors: methods of abstract (non-translatable) parameters that may be read like a field.
+// The corresponding `fn.*` op passes the real method's value, so a changed accessor shows up there.
+// A non-whitelisted method listed here whose result is a tuple becomes one parameter of product type.
+var accessors = map[string]bool{
+	"tak.Position.Size":        true,
+	"tak.Position.hasRoad":     true,
+	"tak.Position.WhiteStones": true,
+	"tak.Position.BlackStones": true,
+	"tak.Position.MoveNumber":  true,
+	"tak.Position.WinDetails":  true,
+}
+
+// intrinsics: functions of the repository that only wrap a math/bits intrinsic are mapped to the
+// definition of the same name in the generated prelude (FuncsTak.lean), after checking that the
+// Go body still is the single call expected.
+var intrinsics = map[string]struct{ lean, body string }{
+	"bitboard..Popcount":      {"popcount64", "bits.OnesCount64(x)"},
+	"bitboard..TrailingZeros": {"trailingZeros64", "uint(bits.TrailingZeros64(x))"},
+}
+
+const prelude = `/-- Go's conversion to / arithmetic in int8: two's-complement wrap-around into [-128, 127] -/
+def wrap8 (v : Int) : Int := ((v + 128) % 256) - 128
+/-- int16 wrap-around -/
+def wrap16 (v : Int) : Int := ((v + 32768) % 65536) - 32768
+/-- int32 wrap-around -/
+def wrap32 (v : Int) : Int := ((v + 2147483648) % 4294967296) - 2147483648
+
+/-- math/bits.OnesCount64 (an intrinsic, not regenerated; gen checks that bitboard.Popcount still is the single
+call; the value is validated by the fn.popcount op): clear the lowest set bit until none is left -/
+def popcount64_loop : Nat → BitVec 64 → Nat
+  | 0, _ => 0
+  | n+1, x => if x == 0#64 then 0 else 1 + popcount64_loop n (x &&& (x - 1#64))
+def popcount64 (x : BitVec 64) : Int := Int.ofNat (popcount64_loop 64 x)
+
+/-- math/bits.TrailingZeros64 (64 for 0) -/
+def trailingZeros64_loop : Nat → Nat → BitVec 64 → Nat
+  | 0, k, _ => k
+  | n+1, k, x => if x.getLsbD 0 then k else trailingZeros64_loop n (k+1) (x >>> 1)
+def trailingZeros64 (x : BitVec 64) : Nat := if x == 0#64 then 64 else trailingZeros64_loop 64 0 x
+
+`
 
 type tclass int
 
@@ -51,13 +168,15 @@ const (
 	tNat
 	tBool
 	tStruct
+	tTuple
 	tBad
 )
 
 type ltype struct {
 	c     tclass
-	width int
+	width int // BitVec width; for tInt: 0 = unbounded, 8/16/32 = wrapped
 	sname string
+	elems []ltype
 }
 
 func (t ltype) lean() string {
@@ -72,18 +191,67 @@ func (t ltype) lean() string {
 		return "Bool"
 	case tStruct:
 		return t.sname
+	case tTuple:
+		var s []string
+		for _, e := range t.elems {
+			s = append(s, e.lean())
+		}
+		return strings.Join(s, " × ")
 	}
 	return "?"
 }
 
+// fnInfo is what callers need to know about an already translated function.
+type fnInfo struct {
+	spec   fnSpec
+	group  int
+	opt    bool
+	params []paramInfo
+}
+
+type viewInfo struct {
+	path []string
+	ty   ltype
+}
+
+type paramInfo struct {
+	abstract bool
+	skip     bool       // blank / unnamed Go parameter: no Lean parameter
+	views    []viewInfo // sorted by joined name
+}
+
+type absParam struct {
+	name  string
+	views map[string]viewInfo
+}
+
+type closureInfo struct {
+	lean  string
+	outer []string
+}
+
+type generator struct {
+	ld      *loader
+	done    map[string]*fnInfo
+	structs map[string]bool // emitted structures
+}
+
 type tr struct {
-	p       *pkgInfo
-	spec    fnSpec
-	structs map[string]*types.Struct // struct types to emit
-	helpers []string
-	nloop   int
-	locals  map[string]*types.Struct // local struct variables (flattened)
-	err     error
+	g        *generator
+	p        *pkgInfo
+	spec     fnSpec
+	group    int
+	structs  map[string]*types.Struct // struct types to emit
+	sorder   []string
+	helpers  []string
+	nloop    int
+	locals   map[string]*types.Struct // local struct variables (flattened)
+	abs      map[types.Object]*absParam
+	closures map[types.Object]closureInfo
+	opt      bool
+	named    []string
+	fnBody   *ast.BlockStmt // body of the enclosing function (local closures: captured variables must never be reassigned)
+	err      error
 }
 
 func (t *tr) fail(n ast.Node, format string, a ...interface{}) {
@@ -93,16 +261,19 @@ func (t *tr) fail(n ast.Node, format string, a ...interface{}) {
 	}
 }
 
-func (t *tr) ltypeOf(ty types.Type) ltype {
+func namedStruct(ty types.Type) (*types.Named, *types.Struct) {
 	if p, ok := ty.(*types.Pointer); ok {
 		ty = p.Elem()
 	}
 	if n, ok := ty.(*types.Named); ok {
 		if st, ok := n.Underlying().(*types.Struct); ok {
-			t.structs[n.Obj().Name()] = st
-			return ltype{c: tStruct, sname: n.Obj().Name()}
+			return n, st
 		}
 	}
+	return nil, nil
+}
+
+func basicType(ty types.Type) ltype {
 	b, ok := ty.Underlying().(*types.Basic)
 	if !ok {
 		return ltype{c: tBad}
@@ -118,12 +289,101 @@ func (t *tr) ltypeOf(ty types.Type) ltype {
 		return ltype{c: tBV, width: 8}
 	case types.Int, types.Int64, types.UntypedInt:
 		return ltype{c: tInt}
+	case types.Int8:
+		return ltype{c: tInt, width: 8}
+	case types.Int16:
+		return ltype{c: tInt, width: 16}
+	case types.Int32:
+		return ltype{c: tInt, width: 32}
 	case types.Uint:
 		return ltype{c: tNat}
 	case types.Bool, types.UntypedBool:
 		return ltype{c: tBool}
 	}
 	return ltype{c: tBad}
+}
+
+// abstractable: a (pointer to a) named struct or array type; its reads become parameters
+func abstractable(ty types.Type) bool {
+	if p, ok := ty.(*types.Pointer); ok {
+		ty = p.Elem()
+	}
+	n, ok := ty.(*types.Named)
+	if !ok {
+		return false
+	}
+	switch n.Underlying().(type) {
+	case *types.Struct, *types.Array:
+		return true
+	}
+	return false
+}
+
+// structOK: every field (recursively) has a translatable type
+func structOK(st *types.Struct, depth int) bool {
+	if depth > 4 {
+		return false
+	}
+	for i := 0; i < st.NumFields(); i++ {
+		ft := st.Field(i).Type()
+		if _, ok := ft.(*types.Pointer); ok {
+			return false
+		}
+		if _, s := namedStruct(ft); s != nil {
+			if !structOK(s, depth+1) {
+				return false
+			}
+			continue
+		}
+		if basicType(ft).c == tBad {
+			return false
+		}
+	}
+	return true
+}
+
+func (t *tr) registerStruct(name string, st *types.Struct) {
+	if _, ok := t.structs[name]; ok {
+		return
+	}
+	for i := 0; i < st.NumFields(); i++ {
+		if n, s := namedStruct(st.Field(i).Type()); s != nil && structOK(s, 0) {
+			t.registerStruct(n.Obj().Name(), s)
+		}
+	}
+	t.structs[name] = st
+	t.sorder = append(t.sorder, name)
+}
+
+func (t *tr) ltypeOf(ty types.Type) ltype {
+	if tup, ok := ty.(*types.Tuple); ok {
+		if tup.Len() == 1 {
+			return t.ltypeOf(tup.At(0).Type())
+		}
+		lt := ltype{c: tTuple}
+		for i := 0; i < tup.Len(); i++ {
+			e := t.ltypeOf(tup.At(i).Type())
+			if e.c == tBad {
+				return e
+			}
+			lt.elems = append(lt.elems, e)
+		}
+		if tup.Len() == 0 {
+			return ltype{c: tBad}
+		}
+		return lt
+	}
+	if n, st := namedStruct(ty); st != nil {
+		if !structOK(st, 0) {
+			return ltype{c: tBad}
+		}
+		t.registerStruct(n.Obj().Name(), st)
+		return ltype{c: tStruct, sname: n.Obj().Name()}
+	}
+	if _, ok := ty.(*types.Pointer); ok {
+		return ltype{c: tBad}
+	}
+	return basicType(ty)
 }
 
 func lit(v constant.Value, ty ltype) string {
@@ -148,10 +408,22 @@ func lit(v constant.Value, ty ltype) string {
 
 func safe(name string) string {
 	switch name {
-	case "next", "end", "at", "from", "in", "then", "do", "fun", "let", "have", "show", "open", "by", "with":
+	case "next", "end", "at", "from", "in", "then", "do", "fun", "let", "have", "show", "open", "by", "with",
+		"Type", "Sort", "Prop", "if", "else", "match", "where", "def", "theorem", "instance", "structure", "namespace", "section",
+		"st", "fuel", "hi":
 		return name + "_"
 	}
 	return name
+}
+
+func wrapName(w int) string { return fmt.Sprintf("wrap%d", w) }
+
+// wrap applies the two's-complement wrap of a bounded signed type
+func wrap(ty ltype, s string) string {
+	if ty.c == tInt && ty.width > 0 {
+		return "(" + wrapName(ty.width) + " " + s + ")"
+	}
+	return s
 }
 
 func (t *tr) typeOf(e ast.Expr) ltype {
@@ -165,6 +437,108 @@ func (t *tr) typeOf(e ast.Expr) ltype {
 		t.fail(e, "unsupported type %s", tv.Type)
 	}
 	return lt
+}
+
+// selPath splits a.b.c into its root identifier and the field path
+func selPath(e ast.Expr) (*ast.Ident, []string) {
+	var path []string
+	for {
+		switch x := e.(type) {
+		case *ast.SelectorExpr:
+			path = append([]string{x.Sel.Name}, path...)
+			e = x.X
+		case *ast.ParenExpr:
+			e = x.X
+		case *ast.Ident:
+			return x, path
+		default:
+			return nil, nil
+		}
+	}
+}
+
+func (t *tr) absOf(id *ast.Ident) *absParam {
+	if id == nil {
+		return nil
+	}
+	if obj, ok := t.p.info.Uses[id]; ok {
+		return t.abs[obj]
+	}
+	return nil
+}
+
+func viewName(param string, path []string) string {
+	return param + "_" + strings.NewReplacer("[", "", "]", "").Replace(strings.Join(path, "_"))
+}
+
+func (t *tr) view(a *absParam, path []string, ty ltype) string {
+	name := viewName(a.name, path)
+	old, ok := a.views[name]
+	if !ok {
+		t.err2("%s reads %s.%s, which is not among the views declared for it in the whitelist", t.spec.name, a.name, strings.Join(path, "."))
+		return "?"
+	}
+	if old.ty.lean() != ty.lean() {
+		t.err2("%s: view %s has type %s, declared path resolves to %s", t.spec.name, name, ty.lean(), old.ty.lean())
+	}
+	return name
+}
+
+func (t *tr) err2(format string, a ...interface{}) {
+	if t.err == nil {
+		t.err = fmt.Errorf("%s.%s (%s): outside the translatable subset: %s", t.spec.dir, t.spec.name, t.spec.file, fmt.Sprintf(format, a...))
+	}
+}
+
+// declareViews resolves the declared view paths of an abstract parameter through go/types.
+func (t *tr) declareViews(a *absParam, ty types.Type) {
+	decl, ok := t.spec.views[a.name]
+	if !ok {
+		t.err2("abstract parameter %s has no declared views in the whitelist", a.name)
+		return
+	}
+	for _, ps := range strings.Fields(decl) {
+		path := strings.Split(ps, ".")
+		cur := ty
+		for _, comp := range path {
+			if p, ok := cur.(*types.Pointer); ok {
+				cur = p.Elem()
+			}
+			if strings.HasPrefix(comp, "[") {
+				arr, ok := cur.Underlying().(*types.Array)
+				if !ok {
+					t.err2("view %s.%s: not an array", a.name, ps)
+					return
+				}
+				cur = arr.Elem()
+				continue
+			}
+			var pkg *types.Package
+			if n, ok := cur.(*types.Named); ok {
+				pkg = n.Obj().Pkg()
+			}
+			obj, _, _ := types.LookupFieldOrMethod(cur, true, pkg, comp)
+			switch o := obj.(type) {
+			case *types.Var:
+				cur = o.Type()
+			case *types.Func:
+				if !accessors[funcKey(o)] {
+					t.err2("view %s.%s: method %s is not a listed accessor", a.name, ps, funcKey(o))
+					return
+				}
+				cur = o.Type().(*types.Signature).Results()
+			default:
+				t.err2("view %s.%s: no field or method %s", a.name, ps, comp)
+				return
+			}
+		}
+		lt := t.ltypeOf(cur)
+		if lt.c == tBad {
+			t.err2("view %s.%s: type %s is not translatable", a.name, ps, cur)
+			return
+		}
+		a.views[viewName(a.name, path)] = viewInfo{path: path, ty: lt}
+	}
 }
 
 func (t *tr) expr(e ast.Expr) string {
@@ -182,21 +556,53 @@ func (t *tr) expr(e ast.Expr) string {
 		if e.Name == "true" || e.Name == "false" {
 			return e.Name
 		}
+		if t.absOf(e) != nil {
+			t.fail(e, "abstract parameter %s used as a value", e.Name)
+			return "?"
+		}
+		if _, isLocal := t.locals[e.Name]; isLocal {
+			t.fail(e, "local struct %s used as a value", e.Name)
+			return "?"
+		}
 		return safe(e.Name)
 	case *ast.SelectorExpr:
+		root, path := selPath(e)
+		if a := t.absOf(root); a != nil {
+			return t.view(a, path, t.typeOf(e))
+		}
 		if id, ok := e.X.(*ast.Ident); ok {
 			if _, isLocal := t.locals[id.Name]; isLocal {
 				return safe(id.Name) + "_" + e.Sel.Name
 			}
-			return safe(id.Name) + "." + e.Sel.Name
+			return safe(id.Name) + "." + safe(e.Sel.Name)
+		}
+		if _, st := namedStruct(t.p.info.Types[e.X].Type); st != nil {
+			return t.expr(e.X) + "." + safe(e.Sel.Name)
 		}
 		t.fail(e, "selector")
+	case *ast.IndexExpr:
+		// w[K] with a constant index on an abstract array parameter -> parameter w_K
+		id, _ := e.X.(*ast.Ident)
+		a := t.absOf(id)
+		itv := t.p.info.Types[e.Index]
+		if a == nil || itv.Value == nil {
+			t.fail(e, "index expression (only constant indices into an abstract array parameter)")
+			return "?"
+		}
+		name := constant.ToInt(itv.Value).ExactString()
+		switch ix := e.Index.(type) {
+		case *ast.Ident:
+			name = ix.Name
+		case *ast.SelectorExpr:
+			name = ix.Sel.Name
+		}
+		return t.view(a, []string{"[" + name + "]"}, t.typeOf(e))
 	case *ast.UnaryExpr:
 		x := t.expr(e.X)
 		ty := t.typeOf(e.X)
 		switch e.Op {
 		case token.SUB:
-			return "(-" + x + ")"
+			return wrap(ty, "(-"+x+")")
 		case token.XOR:
 			if ty.c == tBV {
 				return "(~~~" + x + ")"
@@ -206,17 +612,171 @@ func (t *tr) expr(e ast.Expr) string {
 		}
 		t.fail(e, "unary %s", e.Op)
 	case *ast.BinaryExpr:
-		return t.binary(e)
+		return t.binary(e, t.typeOf(e))
 	case *ast.CallExpr:
 		// conversion?
 		if ftv, ok := t.p.info.Types[e.Fun]; ok && ftv.IsType() && len(e.Args) == 1 {
 			return t.convert(e.Args[0], t.ltypeOf(ftv.Type), e)
 		}
-		t.fail(e, "call")
+		return t.call(e)
 	default:
 		t.fail(e, "expression %T", e)
 	}
 	return "?"
+}
+
+func funcKey(fn *types.Func) string {
+	recv := ""
+	if sig, ok := fn.Type().(*types.Signature); ok && sig.Recv() != nil {
+		rt := sig.Recv().Type()
+		if p, ok := rt.(*types.Pointer); ok {
+			rt = p.Elem()
+		}
+		if n, ok := rt.(*types.Named); ok {
+			recv = n.Obj().Name()
+		}
+	}
+	pkg := ""
+	if fn.Pkg() != nil {
+		pkg = fn.Pkg().Path()
+	}
+	return pkg + "." + recv + "." + fn.Name()
+}
+
+func specKey(s fnSpec) string { return s.dir + "." + s.recv + "." + s.name }
+
+// call translates a call of a local closure, an accessor of an abstract parameter, an intrinsic, or a function
+// translated earlier.
+func (t *tr) call(e *ast.CallExpr) string {
+	var fnObj types.Object
+	var recv ast.Expr
+	switch f := e.Fun.(type) {
+	case *ast.Ident:
+		fnObj = t.p.info.Uses[f]
+		if ci, ok := t.closures[fnObj]; ok {
+			args := append([]string{}, ci.outer...)
+			for _, a := range e.Args {
+				args = append(args, t.expr(a))
+			}
+			return "(" + ci.lean + " " + strings.Join(args, " ") + ")"
+		}
+	case *ast.SelectorExpr:
+		fnObj = t.p.info.Uses[f.Sel]
+		isPkg := false
+		if id, ok := f.X.(*ast.Ident); ok {
+			_, isPkg = t.p.info.Uses[id].(*types.PkgName)
+		}
+		if !isPkg {
+			recv = f.X
+		}
+	}
+	fn, ok := fnObj.(*types.Func)
+	if !ok {
+		t.fail(e, "call of something that is not a declared function")
+		return "?"
+	}
+	key := funcKey(fn)
+	if in, ok := intrinsics[key]; ok {
+		if err := t.g.checkIntrinsic(fn, in.body); err != nil {
+			t.fail(e, "%v", err)
+			return "?"
+		}
+		if len(e.Args) != 1 {
+			t.fail(e, "intrinsic arity")
+			return "?"
+		}
+		return "(" + in.lean + " " + t.expr(e.Args[0]) + ")"
+	}
+	// accessor of an abstract parameter
+	if recv != nil {
+		if id, ok := recv.(*ast.Ident); ok {
+			if a := t.absOf(id); a != nil && accessors[key] && len(e.Args) == 0 {
+				sig := fn.Type().(*types.Signature)
+				rt := t.ltypeOf(sig.Results())
+				if rt.c == tBad {
+					t.fail(e, "accessor result type")
+					return "?"
+				}
+				return t.view(a, []string{fn.Name()}, rt)
+			}
+		}
+	}
+	callee, ok := t.g.done[key]
+	if !ok {
+		t.fail(e, "call of %s, which is not (or not yet) in the whitelist", key)
+		return "?"
+	}
+	if callee.group > t.group {
+		t.fail(e, "call of %s from an earlier generated file", key)
+		return "?"
+	}
+	if callee.opt {
+		t.fail(e, "call of %s, which may panic / not terminate", key)
+		return "?"
+	}
+	var goArgs []ast.Expr
+	if recv != nil {
+		goArgs = append(goArgs, recv)
+	}
+	goArgs = append(goArgs, e.Args...)
+	if len(goArgs) != len(callee.params) {
+		t.fail(e, "argument count of %s", key)
+		return "?"
+	}
+	var args []string
+	for i, a := range goArgs {
+		pi := callee.params[i]
+		if pi.skip {
+			continue
+		}
+		if !pi.abstract {
+			args = append(args, t.expr(a))
+			continue
+		}
+		id, _ := a.(*ast.Ident)
+		ab := t.absOf(id)
+		if ab == nil {
+			t.fail(a, "argument for the abstract parameter of %s must be an abstract parameter", key)
+			return "?"
+		}
+		for _, v := range pi.views {
+			args = append(args, t.view(ab, v.path, v.ty))
+		}
+	}
+	return "(" + callee.spec.lean + " " + strings.Join(args, " ") + ")"
+}
+
+func (g *generator) checkIntrinsic(fn *types.Func, want string) error {
+	p, err := g.ld.load(fn.Pkg().Path())
+	if err != nil {
+		return err
+	}
+	found := 0
+	for _, f := range p.files {
+		for _, d := range f.Decls {
+			fd, ok := d.(*ast.FuncDecl)
+			if !ok || fd.Recv != nil || fd.Name.Name != fn.Name() || fd.Body == nil {
+				continue
+			}
+			found++
+			if len(fd.Body.List) != 1 {
+				return fmt.Errorf("intrinsic %s: body is no longer a single return", fn.Name())
+			}
+			rs, ok := fd.Body.List[0].(*ast.ReturnStmt)
+			if !ok || len(rs.Results) != 1 {
+				return fmt.Errorf("intrinsic %s: body is no longer a single return", fn.Name())
+			}
+			got := types.ExprString(rs.Results[0])
+			if got != want {
+				return fmt.Errorf("intrinsic %s: body is `%s`, expected `%s`", fn.Name(), got, want)
+			}
+		}
+	}
+	if found == 0 {
+		// the build-tagged variants live in files of the same package name; at least one must be present
+		return fmt.Errorf("intrinsic %s: declaration not found", fn.Name())
+	}
+	return nil
 }
 
 func (t *tr) convert(arg ast.Expr, to ltype, at ast.Node) string {
@@ -229,6 +789,9 @@ func (t *tr) convert(arg ast.Expr, to ltype, at ast.Node) string {
 		}
 		return fmt.Sprintf("(%s.setWidth %d)", x, to.width)
 	case from.c == tBV && to.c == tInt:
+		if to.width > 0 && from.width >= to.width {
+			return wrap(to, fmt.Sprintf("(Int.ofNat %s.toNat)", x))
+		}
 		return fmt.Sprintf("(Int.ofNat %s.toNat)", x)
 	case from.c == tBV && to.c == tNat:
 		return fmt.Sprintf("%s.toNat", x)
@@ -236,12 +799,17 @@ func (t *tr) convert(arg ast.Expr, to ltype, at ast.Node) string {
 		return fmt.Sprintf("(BitVec.ofInt %d %s)", to.width, x)
 	case from.c == tNat && to.c == tBV:
 		return fmt.Sprintf("(BitVec.ofNat %d %s)", to.width, x)
-	case from.c == tInt && to.c == tInt, from.c == tNat && to.c == tNat:
+	case from.c == tInt && to.c == tInt:
+		if to.width > 0 && (from.width == 0 || from.width > to.width) {
+			return wrap(to, x)
+		}
+		return x
+	case from.c == tNat && to.c == tNat:
 		return x
 	case from.c == tNat && to.c == tInt:
-		return fmt.Sprintf("(Int.ofNat %s)", x)
+		return wrap(to, fmt.Sprintf("(Int.ofNat %s)", x))
 	case from.c == tInt && to.c == tNat:
-		return fmt.Sprintf("%s.toNat", x)
+		break // uint(negative) wraps in Go; constants never get here (they are folded)
 	}
 	t.fail(at, "conversion %s -> %s", from.lean(), to.lean())
 	return "?"
@@ -259,13 +827,15 @@ func (t *tr) shiftAmount(e ast.Expr) string {
 	case tBV:
 		return "(" + x + ").toNat"
 	case tInt:
-		return "(" + x + ").toNat"
+		t.fail(e, "shift by a signed non-constant amount (Go panics on a negative count)")
+		return "?"
 	}
 	t.fail(e, "shift amount type")
 	return "?"
 }
 
-func (t *tr) binary(e *ast.BinaryExpr) string {
+// binary translates e; rt is the Go type of the result (given explicitly: `x op= y` builds a synthetic node)
+func (t *tr) binary(e *ast.BinaryExpr, rt ltype) string {
 	lt := t.typeOf(e.X)
 	l, r := t.expr(e.X), "?"
 	if e.Op != token.SHL && e.Op != token.SHR {
@@ -289,17 +859,23 @@ func (t *tr) binary(e *ast.BinaryExpr) string {
 	case token.GEQ:
 		return "(decide (" + l + " ≥ " + r + "))"
 	case token.ADD:
-		return "(" + l + " + " + r + ")"
+		return wrap(rt, "("+l+" + "+r+")")
 	case token.SUB:
-		return "(" + l + " - " + r + ")"
+		return wrap(rt, "("+l+" - "+r+")")
 	case token.MUL:
-		return "(" + l + " * " + r + ")"
-	case token.QUO:
-		if lt.c == tInt {
-			return "(Int.tdiv " + l + " " + r + ")"
+		return wrap(rt, "("+l+" * "+r+")")
+	case token.QUO, token.REM:
+		// Go panics on a zero divisor, Lean's division returns 0: only divisors that are non-zero constants
+		if dv := t.p.info.Types[e.Y].Value; dv == nil || constant.Sign(constant.ToInt(dv)) == 0 {
+			t.fail(e, "division by something that is not a non-zero constant")
+			return "?"
 		}
-		return "(" + l + " / " + r + ")"
-	case token.REM:
+		if e.Op == token.QUO {
+			if lt.c == tInt {
+				return wrap(rt, "(Int.tdiv "+l+" "+r+")")
+			}
+			return "(" + l + " / " + r + ")"
+		}
 		if lt.c == tInt {
 			return "(Int.tmod " + l + " " + r + ")"
 		}
@@ -344,6 +920,12 @@ var assignOps = map[token.Token]token.Token{
 func (t *tr) lhsName(e ast.Expr) string {
 	switch e := e.(type) {
 	case *ast.Ident:
+		if e.Name == "_" {
+			return "_"
+		}
+		if t.absOf(e) != nil {
+			break
+		}
 		return safe(e.Name)
 	case *ast.SelectorExpr:
 		if id, ok := e.X.(*ast.Ident); ok {
@@ -358,7 +940,38 @@ func (t *tr) lhsName(e ast.Expr) string {
 
 func indent(s string) string { return "  " + strings.ReplaceAll(s, "\n", "\n  ") }
 
-// stmts translates a statement list followed by `rest` (already-translated continuation thunk).
+func tuple(xs []string) string {
+	if len(xs) == 1 {
+		return xs[0]
+	}
+	return "(" + strings.Join(xs, ", ") + ")"
+}
+
+func (t *tr) retVal(v string) string {
+	if t.opt {
+		return "some (" + v + ")"
+	}
+	return v
+}
+
+func (t *tr) isPanic(s ast.Stmt) bool {
+	es, ok := s.(*ast.ExprStmt)
+	if !ok {
+		return false
+	}
+	ce, ok := es.X.(*ast.CallExpr)
+	if !ok {
+		return false
+	}
+	id, ok := ce.Fun.(*ast.Ident)
+	if !ok || id.Name != "panic" {
+		return false
+	}
+	_, isBuiltin := t.p.info.Uses[id].(*types.Builtin)
+	return isBuiltin
+}
+
+// stmts translates a statement list followed by `ret` (the continuation, translated on demand).
 func (t *tr) stmts(ss []ast.Stmt, ret func() string) string {
 	if t.err != nil {
 		return "?"
@@ -370,20 +983,41 @@ func (t *tr) stmts(ss []ast.Stmt, ret func() string) string {
 	cont := func() string { return t.stmts(tail, ret) }
 	switch s := s.(type) {
 	case *ast.ReturnStmt:
-		if len(s.Results) != 1 {
-			t.fail(s, "return with %d results", len(s.Results))
-			return "?"
-		}
-		if id, ok := s.Results[0].(*ast.Ident); ok {
-			if st, isLocal := t.locals[id.Name]; isLocal {
-				var fs []string
-				for i := 0; i < st.NumFields(); i++ {
-					fs = append(fs, fmt.Sprintf("%s := %s_%s", st.Field(i).Name(), safe(id.Name), st.Field(i).Name()))
-				}
-				return "{ " + strings.Join(fs, ", ") + " }"
+		switch len(s.Results) {
+		case 0:
+			if len(t.named) == 0 {
+				t.fail(s, "bare return without named results")
+				return "?"
 			}
+			return t.retVal(tuple(t.named))
+		case 1:
+			if id, ok := s.Results[0].(*ast.Ident); ok {
+				if st, isLocal := t.locals[id.Name]; isLocal {
+					var fs []string
+					for i := 0; i < st.NumFields(); i++ {
+						fs = append(fs, fmt.Sprintf("%s := %s_%s", safe(st.Field(i).Name()), safe(id.Name), st.Field(i).Name()))
+					}
+					return t.retVal("{ " + strings.Join(fs, ", ") + " }")
+				}
+			}
+			return t.retVal(t.expr(s.Results[0]))
+		default:
+			var vs []string
+			for _, r := range s.Results {
+				vs = append(vs, t.expr(r))
+			}
+			return t.retVal(tuple(vs))
 		}
-		return t.expr(s.Results[0])
+	case *ast.ExprStmt:
+		if t.isPanic(s) {
+			if !t.opt {
+				t.fail(s, "panic in a function not marked as partial")
+				return "?"
+			}
+			return "none"
+		}
+		t.fail(s, "expression statement")
+		return "?"
 	case *ast.DeclStmt:
 		gd := s.Decl.(*ast.GenDecl)
 		if gd.Tok != token.VAR {
@@ -401,6 +1035,10 @@ func (t *tr) stmts(ss []ast.Stmt, ret func() string) string {
 					t.locals[n.Name] = st
 					for k := 0; k < st.NumFields(); k++ {
 						ft := t.ltypeOf(st.Field(k).Type())
+						if ft.c == tStruct {
+							t.fail(s, "local struct with a struct field")
+							return "?"
+						}
 						out += fmt.Sprintf("let %s_%s : %s := %s\n", safe(n.Name), st.Field(k).Name(), ft.lean(), zero(ft))
 					}
 					continue
@@ -419,8 +1057,42 @@ func (t *tr) stmts(ss []ast.Stmt, ret func() string) string {
 		return out + cont()
 	case *ast.AssignStmt:
 		if len(s.Lhs) != 1 || len(s.Rhs) != 1 {
-			t.fail(s, "multi-assignment")
-			return "?"
+			if s.Tok != token.ASSIGN && s.Tok != token.DEFINE {
+				t.fail(s, "multi-assignment operator")
+				return "?"
+			}
+			var names []string
+			for _, l := range s.Lhs {
+				names = append(names, t.lhsName(l))
+			}
+			var val string
+			if len(s.Rhs) == 1 {
+				ce, ok := s.Rhs[0].(*ast.CallExpr)
+				if !ok {
+					t.fail(s, "destructuring of a non-call")
+					return "?"
+				}
+				val = t.call(ce)
+			} else if len(s.Rhs) == len(s.Lhs) {
+				var vs []string
+				for _, r := range s.Rhs {
+					vs = append(vs, t.expr(r))
+				}
+				val = tuple(vs)
+			} else {
+				t.fail(s, "assignment shape")
+				return "?"
+			}
+			return fmt.Sprintf("let %s := %s\n", tuple(names), val) + cont()
+		}
+		if fl, ok := s.Rhs[0].(*ast.FuncLit); ok {
+			id, isId := s.Lhs[0].(*ast.Ident)
+			if s.Tok != token.DEFINE || !isId {
+				t.fail(s, "function literal outside `name := func..`")
+				return "?"
+			}
+			t.localClosure(id, fl)
+			return cont()
 		}
 		name := t.lhsName(s.Lhs[0])
 		var val string
@@ -440,7 +1112,11 @@ func (t *tr) stmts(ss []ast.Stmt, ret func() string) string {
 			}
 			lt = t.typeOf(s.Lhs[0])
 			be := &ast.BinaryExpr{X: s.Lhs[0], Op: op, Y: s.Rhs[0], OpPos: s.TokPos}
-			val = t.binary(be)
+			val = t.binary(be, lt)
+		}
+		if lt.c == tBad || lt.c == tTuple {
+			t.fail(s, "assigned type")
+			return "?"
 		}
 		return fmt.Sprintf("let %s : %s := %s\n", name, lt.lean(), val) + cont()
 	case *ast.IncDecStmt:
@@ -454,11 +1130,17 @@ func (t *tr) stmts(ss []ast.Stmt, ret func() string) string {
 		if lt.c == tBV {
 			one = fmt.Sprintf("1#%d", lt.width)
 		}
+		if lt.c == tInt && lt.width > 0 {
+			return fmt.Sprintf("let %s : %s := %s\n", name, lt.lean(), wrap(lt, "("+name+" "+op+" "+one+")")) + cont()
+		}
 		return fmt.Sprintf("let %s : %s := %s %s %s\n", name, lt.lean(), name, op, one) + cont()
 	case *ast.IfStmt:
 		if s.Init != nil {
-			t.fail(s, "if with init")
-			return "?"
+			// the names the init statement defines stay visible in the continuation on the Lean side;
+			// harmless because a function never has two variables of one name (checkNames)
+			inner := *s
+			inner.Init = nil
+			return t.stmts(append([]ast.Stmt{s.Init, &inner}, tail...), ret)
 		}
 		c := t.expr(s.Cond)
 		thenS := t.stmts(s.Body.List, cont)
@@ -473,9 +1155,13 @@ func (t *tr) stmts(ss []ast.Stmt, ret func() string) string {
 		}
 		return fmt.Sprintf("if %s then\n%s\nelse\n%s", c, indent(thenS), indent(elseS))
 	case *ast.SwitchStmt:
-		if s.Init != nil || s.Tag != nil {
-			t.fail(s, "switch with tag")
+		if s.Init != nil {
+			t.fail(s, "switch with init")
 			return "?"
+		}
+		tag := ""
+		if s.Tag != nil {
+			tag = t.expr(s.Tag)
 		}
 		// nested ifs, default last
 		var build func(i int) string
@@ -498,12 +1184,22 @@ func (t *tr) stmts(ss []ast.Stmt, ret func() string) string {
 			}
 			var cs []string
 			for _, ce := range cc.List {
-				cs = append(cs, t.expr(ce))
+				if s.Tag != nil {
+					cs = append(cs, "("+tag+" == "+t.expr(ce)+")")
+				} else {
+					cs = append(cs, t.expr(ce))
+				}
 			}
 			return fmt.Sprintf("if %s then\n%s\nelse\n%s", strings.Join(cs, " || "), indent(t.stmts(cc.Body, cont)), indent(build(i+1)))
 		}
 		return build(0)
 	case *ast.ForStmt:
+		if s.Init == nil && s.Post == nil {
+			if s.Cond == nil {
+				return t.foreverLoop(s)
+			}
+			return t.whileLoop(s, cont)
+		}
 		return t.forLoop(s, cont)
 	case *ast.BlockStmt:
 		return t.stmts(append(append([]ast.Stmt{}, s.List...), tail...), ret)
@@ -535,10 +1231,17 @@ func (t *tr) assigned(ss []ast.Stmt, out map[string]ltype) {
 				t.fail(s, "definition inside loop body")
 				continue
 			}
+			if len(s.Lhs) != 1 {
+				t.fail(s, "multi-assignment inside loop body")
+				continue
+			}
 			out[t.lhsName(s.Lhs[0])] = t.typeOf(s.Lhs[0])
 		case *ast.IncDecStmt:
 			out[t.lhsName(s.X)] = t.typeOf(s.X)
 		case *ast.IfStmt:
+			if s.Init != nil {
+				t.fail(s, "if with init inside loop")
+			}
 			t.assigned(s.Body.List, out)
 			if b, ok := s.Else.(*ast.BlockStmt); ok {
 				t.assigned(b.List, out)
@@ -552,14 +1255,20 @@ func (t *tr) assigned(ss []ast.Stmt, out map[string]ltype) {
 }
 
 type identCollector struct {
-	t   *tr
-	set map[string]ltype
+	t    *tr
+	set  map[string]ltype
+	from token.Pos // variables declared inside [from, to) are local to the loop body
+	to   token.Pos
 }
 
 func (c identCollector) Visit(n ast.Node) ast.Visitor {
 	switch n := n.(type) {
 	case *ast.SelectorExpr:
 		if id, ok := n.X.(*ast.Ident); ok {
+			if c.t.absOf(id) != nil {
+				c.t.fail(n, "abstract parameter inside a loop")
+				return nil
+			}
 			if _, isLocal := c.t.locals[id.Name]; isLocal {
 				c.set[safe(id.Name)+"_"+n.Sel.Name] = c.t.typeOf(n)
 				return nil
@@ -570,7 +1279,14 @@ func (c identCollector) Visit(n ast.Node) ast.Visitor {
 			return nil
 		}
 	case *ast.Ident:
+		if c.t.absOf(n) != nil {
+			c.t.fail(n, "abstract parameter inside a loop")
+			return nil
+		}
 		if obj, ok := c.t.p.info.Uses[n].(*types.Var); ok && !obj.IsField() && obj.Parent() != c.t.p.pkg.Scope() {
+			if c.from != token.NoPos && obj.Pos() >= c.from && obj.Pos() < c.to {
+				return c
+			}
 			c.set[safe(n.Name)] = c.t.ltypeOf(obj.Type())
 		}
 	}
@@ -602,6 +1318,10 @@ func (t *tr) forLoop(s *ast.ForStmt, cont func() string) string {
 	}
 	state := map[string]ltype{}
 	t.assigned(s.Body.List, state)
+	if _, bad := state[safe(iv.Name)]; bad {
+		t.fail(s, "loop variable %s is modified in the body", iv.Name)
+		return "?"
+	}
 	var svars []string
 	for k := range state {
 		svars = append(svars, k)
@@ -609,16 +1329,16 @@ func (t *tr) forLoop(s *ast.ForStmt, cont func() string) string {
 	sort.Strings(svars)
 	// free variables of bounds and body, minus state and loop variable
 	free := map[string]ltype{}
-	ast.Walk(identCollector{t, free}, s.Body)
-	ast.Walk(identCollector{t, free}, cond.Y)
-	ast.Walk(identCollector{t, free}, init.Rhs[0])
+	ast.Walk(identCollector{t: t, set: free}, s.Body)
+	ast.Walk(identCollector{t: t, set: free}, cond.Y)
+	ast.Walk(identCollector{t: t, set: free}, init.Rhs[0])
 	delete(free, safe(iv.Name))
 	for _, v := range svars {
 		delete(free, v)
 	}
 	boundFree := map[string]ltype{}
-	ast.Walk(identCollector{t, boundFree}, cond.Y)
-	ast.Walk(identCollector{t, boundFree}, init.Rhs[0])
+	ast.Walk(identCollector{t: t, set: boundFree}, cond.Y)
+	ast.Walk(identCollector{t: t, set: boundFree}, init.Rhs[0])
 	for v := range boundFree {
 		if _, bad := state[v]; bad {
 			t.fail(s, "loop bound %s is modified in the body", v)
@@ -642,18 +1362,259 @@ func (t *tr) forLoop(s *ast.ForStmt, cont func() string) string {
 		stTypes = append(stTypes, state[v].lean())
 		stNames = append(stNames, v)
 	}
-	tuple := func(xs []string) string {
-		if len(xs) == 1 {
-			return xs[0]
-		}
-		return "(" + strings.Join(xs, ", ") + ")"
-	}
 	stType := strings.Join(stTypes, " × ")
 	body := t.stmts(s.Body.List, func() string { return tuple(stNames) })
 	h := fmt.Sprintf("def %s %s (hi : Nat) : Nat → %s → %s\n  | 0, st => st\n  | fuel+1, st =>\n    let %s := st\n    let %s : Nat := hi - (fuel+1)\n    let st' : %s :=\n%s\n    %s %s hi fuel st'\n",
 		name, strings.Join(params, " "), stType, stType, tuple(stNames), safe(iv.Name), stType, indent(indent(indent(body))), name, strings.Join(args, " "))
 	t.helpers = append(t.helpers, h)
 	return fmt.Sprintf("let %s := %s %s (%s) ((%s) - (%s)) %s\n", tuple(stNames), name, strings.Join(args, " "), b, b, a, tuple(stNames)) + cont()
+}
+
+func (t *tr) loopFuel(s ast.Node) (string, string) {
+	k := t.nloop
+	t.nloop++
+	name := fmt.Sprintf("%s_loop%d", t.spec.lean, k)
+	if k >= len(t.spec.fuel) {
+		t.fail(s, "no fuel given in the whitelist for loop %d", k)
+		return name, "?"
+	}
+	return name, t.spec.fuel[k]
+}
+
+func sortedKeys(m map[string]ltype) []string {
+	var ks []string
+	for k := range m {
+		ks = append(ks, k)
+	}
+	sort.Strings(ks)
+	return ks
+}
+
+// whileLoop: `for cond { assignments }` becomes a fuelled helper; the fuel comes from the whitelist entry.
+// `<helper>_more` = the condition on a state, so that "the fuel sufficed" can be stated and proved.
+func (t *tr) whileLoop(s *ast.ForStmt, cont func() string) string {
+	name, fuel := t.loopFuel(s)
+	state := map[string]ltype{}
+	t.assigned(s.Body.List, state)
+	svars := sortedKeys(state)
+	if len(svars) == 0 {
+		t.fail(s, "loop without state")
+		return "?"
+	}
+	free := map[string]ltype{}
+	ast.Walk(identCollector{t: t, set: free}, s.Body)
+	ast.Walk(identCollector{t: t, set: free}, s.Cond)
+	for _, v := range svars {
+		delete(free, v)
+	}
+	var params, args, stTypes []string
+	for _, v := range sortedKeys(free) {
+		params = append(params, fmt.Sprintf("(%s : %s)", v, free[v].lean()))
+		args = append(args, v)
+	}
+	for _, v := range svars {
+		stTypes = append(stTypes, state[v].lean())
+	}
+	stType := strings.Join(stTypes, " × ")
+	if len(svars) > 1 {
+		stType = "(" + stType + ")"
+	}
+	c := t.expr(s.Cond)
+	body := t.stmts(s.Body.List, func() string { return tuple(svars) })
+	ps, as := strings.Join(params, " "), strings.Join(args, " ")
+	if ps != "" {
+		ps += " "
+		as += " "
+	}
+	h := fmt.Sprintf("def %s %s: Nat → %s → %s\n  | 0, st => st\n  | fuel+1, st =>\n    let %s := st\n    if %s then\n      let st' : %s :=\n%s\n      %s %sfuel st'\n    else st\n\n/-- the loop condition of `%s` on a state (true after the loop = the fuel did not suffice) -/\ndef %s_more %s(st : %s) : Bool :=\n  let %s := st\n  %s\n",
+		name, ps, stType, stType, tuple(svars), c, stType, indent(indent(indent(indent(body)))), name, as,
+		name, name, ps, stType, tuple(svars), c)
+	t.helpers = append(t.helpers, h)
+	return fmt.Sprintf("let %s := %s %s(%s) %s\n", tuple(svars), name, as, fuel, tuple(svars)) + cont()
+}
+
+// foreverLoop: `for { ...; return e; ... }` - the function ends inside the loop; result Option, none = out of fuel.
+func (t *tr) foreverLoop(s *ast.ForStmt) string {
+	name, fuel := t.loopFuel(s)
+	if !t.opt {
+		t.fail(s, "unbounded loop in a function not marked as partial")
+		return "?"
+	}
+	// state = variables assigned in the body that are declared outside it
+	state := map[string]ltype{}
+	ast.Inspect(s.Body, func(n ast.Node) bool {
+		var targets []ast.Expr
+		switch n := n.(type) {
+		case *ast.AssignStmt:
+			if n.Tok != token.DEFINE {
+				targets = n.Lhs
+			}
+		case *ast.IncDecStmt:
+			targets = []ast.Expr{n.X}
+		case *ast.ForStmt:
+			t.fail(n, "nested loop inside an unbounded loop")
+		}
+		for _, l := range targets {
+			root, _ := selPath(l)
+			if root == nil || root.Name == "_" {
+				continue
+			}
+			obj := t.p.info.Uses[root]
+			if obj != nil && obj.Pos() >= s.Body.Pos() && obj.Pos() < s.Body.End() {
+				continue
+			}
+			state[t.lhsName(l)] = t.typeOf(l)
+		}
+		return true
+	})
+	svars := sortedKeys(state)
+	if len(svars) == 0 {
+		t.fail(s, "unbounded loop without state")
+		return "?"
+	}
+	free := map[string]ltype{}
+	ast.Walk(identCollector{t: t, set: free, from: s.Body.Pos(), to: s.Body.End()}, s.Body)
+	for _, v := range svars {
+		delete(free, v)
+	}
+	var params, args, stTypes []string
+	for _, v := range sortedKeys(free) {
+		params = append(params, fmt.Sprintf("(%s : %s)", v, free[v].lean()))
+		args = append(args, v)
+	}
+	for _, v := range svars {
+		stTypes = append(stTypes, state[v].lean())
+	}
+	stType := strings.Join(stTypes, " × ")
+	if len(svars) > 1 {
+		stType = "(" + stType + ")"
+	}
+	ps, as := strings.Join(params, " "), strings.Join(args, " ")
+	if ps != "" {
+		ps += " "
+		as += " "
+	}
+	body := t.stmts(s.Body.List, func() string { return fmt.Sprintf("%s %sfuel %s", name, as, tuple(svars)) })
+	h := fmt.Sprintf("def %s %s: Nat → %s → Option RESULT\n  | 0, _ => none\n  | fuel+1, st =>\n    let %s := st\n%s\n",
+		name, ps, stType, tuple(svars), indent(indent(body)))
+	t.helpers = append(t.helpers, h)
+	return fmt.Sprintf("%s %s(%s) %s", name, as, fuel, tuple(svars))
+}
+
+// localClosure translates `name := func(..) .. { .. }` inside a plain function into a helper definition whose leading
+// parameters are the captured variables.  Go captures by reference: only variables that are never reassigned anywhere
+// in the enclosing function may be captured (then by-reference and by-value coincide).
+func (t *tr) localClosure(id *ast.Ident, fl *ast.FuncLit) {
+	if t.fnBody == nil {
+		t.fail(fl, "function literal here")
+		return
+	}
+	ct := &tr{g: t.g, p: t.p, spec: t.spec, group: t.group, structs: t.structs, locals: map[string]*types.Struct{},
+		abs: map[types.Object]*absParam{}, closures: t.closures, fnBody: nil}
+	ct.spec.lean = t.spec.lean + "_" + id.Name
+	if panics, forever := ct.scanShape(fl.Body); panics || forever {
+		t.fail(fl, "closure with panic / unbounded loop")
+		return
+	}
+	// captured variables
+	captured := map[string]ltype{}
+	capObj := map[types.Object]bool{}
+	ast.Inspect(fl.Body, func(n ast.Node) bool {
+		x, ok := n.(*ast.Ident)
+		if !ok {
+			return true
+		}
+		obj, ok := t.p.info.Uses[x].(*types.Var)
+		if !ok || obj.IsField() || obj.Parent() == t.p.pkg.Scope() {
+			return true
+		}
+		if obj.Pos() >= fl.Pos() && obj.Pos() < fl.End() {
+			return true
+		}
+		if t.abs[obj] != nil {
+			t.fail(x, "closure reads the abstract parameter %s", x.Name)
+			return true
+		}
+		if _, isLocal := t.locals[x.Name]; isLocal {
+			t.fail(x, "closure reads the local struct %s", x.Name)
+			return true
+		}
+		if _, isClosure := t.closures[obj]; isClosure {
+			return true
+		}
+		lt := t.ltypeOf(obj.Type())
+		if lt.c == tBad || lt.c == tTuple {
+			t.fail(x, "captured variable %s of type %s", x.Name, obj.Type())
+			return true
+		}
+		captured[safe(x.Name)] = lt
+		capObj[obj] = true
+		return true
+	})
+	ast.Inspect(t.fnBody, func(n ast.Node) bool {
+		var targets []ast.Expr
+		switch n := n.(type) {
+		case *ast.AssignStmt:
+			if n.Tok != token.DEFINE {
+				targets = n.Lhs
+			}
+		case *ast.IncDecStmt:
+			targets = []ast.Expr{n.X}
+		}
+		for _, l := range targets {
+			if root, _ := selPath(l); root != nil && capObj[t.p.info.Uses[root]] {
+				t.fail(l, "variable %s is captured by a closure and reassigned", root.Name)
+			}
+		}
+		return true
+	})
+	if t.err != nil {
+		return
+	}
+	ps, rt, pre := ct.signature(nil, fl.Type)
+	seen := map[string]types.Object{}
+	if ct.err == nil {
+		ct.checkNames(fl, seen)
+	}
+	for name := range seen {
+		if _, clash := captured[safe(name)]; clash {
+			ct.fail(fl, "closure variable %s has the name of a captured variable", name)
+		}
+	}
+	body := ""
+	if ct.err == nil {
+		body = pre + ct.stmts(fl.Body.List, func() string {
+			ct.fail(fl, "control reaches the end of the closure without return")
+			return "?"
+		})
+	}
+	for _, sp := range ps {
+		if sp.abstract {
+			ct.fail(fl, "abstract closure parameter")
+		}
+	}
+	if ct.err != nil {
+		t.err = ct.err
+		return
+	}
+	for _, n := range ct.sorder {
+		t.sorder = append(t.sorder, n)
+	}
+	var capParams, capArgs []string
+	for _, k := range sortedKeys(captured) {
+		capParams = append(capParams, fmt.Sprintf("(%s : %s)", k, captured[k].lean()))
+		capArgs = append(capArgs, k)
+	}
+	own, _ := ct.paramList(ps)
+	lean := t.spec.lean + "_" + id.Name
+	h := ""
+	for _, hh := range ct.helpers {
+		h += hh + "\n"
+	}
+	sig := strings.TrimSpace(strings.Join(capParams, " ") + " " + own)
+	h += fmt.Sprintf("def %s %s : %s :=\n%s\n", lean, sig, rt.lean(), indent(body))
+	t.helpers = append(t.helpers, h)
+	t.closures[t.p.info.Defs[id]] = closureInfo{lean: lean, outer: capArgs}
 }
 
 func findFunc(p *pkgInfo, spec fnSpec) *ast.FuncDecl {
@@ -682,95 +1643,446 @@ func findFunc(p *pkgInfo, spec fnSpec) *ast.FuncDecl {
 	return nil
 }
 
-func genFuncs(ld *loader) (string, []error) {
-	var errs []error
-	var defs []string
-	structs := map[string]*types.Struct{}
-	structSrc := map[string]*pkgInfo{}
-	var order []string
-	for _, spec := range whitelist {
-		p, err := ld.load(spec.dir)
-		if err != nil {
-			errs = append(errs, fmt.Errorf("%s.%s: %v", spec.dir, spec.name, err))
+// scanShape: does the body contain panic(..) or an unbounded `for {}` (-> Option result)?
+func (t *tr) scanShape(body *ast.BlockStmt) (panics, forever bool) {
+	ast.Inspect(body, func(n ast.Node) bool {
+		switch n := n.(type) {
+		case *ast.ExprStmt:
+			if t.isPanic(n) {
+				panics = true
+			}
+		case *ast.ForStmt:
+			if n.Init == nil && n.Cond == nil && n.Post == nil {
+				forever = true
+			}
+		}
+		return true
+	})
+	return
+}
+
+// checkNames rejects two distinct variables of one name in a function (abstract parameters excepted: they never
+// appear under their own name on the Lean side), and local names that could collide with generated ones.
+func (t *tr) checkNames(root ast.Node, seen map[string]types.Object) {
+	ast.Inspect(root, func(n ast.Node) bool {
+		if _, ok := n.(*ast.FuncLit); ok && n != root {
+			return false
+		}
+		id, ok := n.(*ast.Ident)
+		if !ok || id.Name == "_" {
+			return true
+		}
+		obj, ok := t.p.info.Defs[id]
+		if !ok || obj == nil {
+			return true
+		}
+		if _, isVar := obj.(*types.Var); !isVar {
+			return true
+		}
+		if t.abs[obj] != nil {
+			return true
+		}
+		if old, dup := seen[id.Name]; dup && old != obj {
+			t.fail(id, "two variables named %s (shadowing is outside the subset)", id.Name)
+		}
+		seen[id.Name] = obj
+		if strings.Contains(id.Name, "_") {
+			t.fail(id, "variable name %s contains an underscore (reserved for generated names)", id.Name)
+		}
+		return true
+	})
+}
+
+// signature translates parameters and results of a function type; abstract parameters are registered in t.abs.
+type sigParam struct {
+	obj      types.Object
+	name     string
+	ty       ltype
+	abstract bool
+	skip     bool
+}
+
+func (t *tr) signature(recv *ast.FieldList, ft *ast.FuncType) (ps []sigParam, rt ltype, pre string) {
+	add := func(n *ast.Ident) {
+		obj := t.p.info.Defs[n]
+		if obj == nil {
+			t.fail(n, "parameter without object")
+			return
+		}
+		lt := t.ltypeOf(obj.Type())
+		if lt.c == tBad {
+			if abstractable(obj.Type()) {
+				t.abs[obj] = &absParam{name: n.Name, views: map[string]viewInfo{}}
+				t.declareViews(t.abs[obj], obj.Type())
+				ps = append(ps, sigParam{obj: obj, name: n.Name, abstract: true})
+				return
+			}
+			t.fail(n, "parameter type %s", obj.Type())
+		}
+		ps = append(ps, sigParam{obj: obj, name: safe(n.Name), ty: lt})
+	}
+	lists := []*ast.FieldList{}
+	if recv != nil {
+		lists = append(lists, recv)
+	}
+	lists = append(lists, ft.Params)
+	for _, l := range lists {
+		for _, fl := range l.List {
+			if len(fl.Names) == 0 {
+				ps = append(ps, sigParam{skip: true}) // unnamed: nothing can read it
+			}
+			for _, n := range fl.Names {
+				if n.Name == "_" {
+					ps = append(ps, sigParam{skip: true})
+					continue
+				}
+				add(n)
+			}
+		}
+	}
+	if ft.Results == nil || len(ft.Results.List) == 0 {
+		t.fail(ft, "no result")
+		return
+	}
+	var rts []ltype
+	for _, fl := range ft.Results.List {
+		lt := t.ltypeOf(t.p.info.Types[fl.Type].Type)
+		if lt.c == tBad {
+			t.fail(fl, "result type")
+			return
+		}
+		n := len(fl.Names)
+		if n == 0 {
+			n = 1
+		}
+		for i := 0; i < n; i++ {
+			rts = append(rts, lt)
+		}
+		for _, nm := range fl.Names {
+			t.named = append(t.named, safe(nm.Name))
+			pre += fmt.Sprintf("let %s : %s := %s\n", safe(nm.Name), lt.lean(), zero(lt))
+		}
+	}
+	if len(t.named) != 0 && len(t.named) != len(rts) {
+		t.fail(ft, "partly named results")
+	}
+	if len(rts) == 1 {
+		rt = rts[0]
+	} else {
+		rt = ltype{c: tTuple, elems: rts}
+	}
+	return
+}
+
+func (t *tr) paramList(ps []sigParam) (string, []paramInfo) {
+	var out []string
+	var infos []paramInfo
+	for _, p := range ps {
+		if p.skip {
+			infos = append(infos, paramInfo{skip: true})
 			continue
 		}
-		fd := findFunc(p, spec)
-		if fd == nil {
-			errs = append(errs, fmt.Errorf("%s.%s: function not found in %s/%s", spec.dir, spec.name, spec.dir, spec.file))
+		if !p.abstract {
+			out = append(out, fmt.Sprintf("(%s : %s)", p.name, p.ty.lean()))
+			infos = append(infos, paramInfo{})
 			continue
 		}
-		t := &tr{p: p, spec: spec, structs: map[string]*types.Struct{}, locals: map[string]*types.Struct{}}
-		var params []string
-		addParam := func(n *ast.Ident) {
+		a := t.abs[p.obj]
+		var names []string
+		for k := range a.views {
+			names = append(names, k)
+		}
+		sort.Strings(names)
+		pi := paramInfo{abstract: true}
+		for _, k := range names {
+			out = append(out, fmt.Sprintf("(%s : %s)", k, a.views[k].ty.lean()))
+			pi.views = append(pi.views, a.views[k])
+		}
+		infos = append(infos, pi)
+	}
+	return strings.Join(out, " "), infos
+}
+
+func resultType(rt ltype, opt bool) string {
+	if opt {
+		return "Option (" + rt.lean() + ")"
+	}
+	return rt.lean()
+}
+
+// function translates one plain whitelisted function.
+func (g *generator) function(p *pkgInfo, spec fnSpec, group int, fd *ast.FuncDecl) (string, *tr) {
+	t := &tr{g: g, p: p, spec: spec, group: group, structs: map[string]*types.Struct{}, locals: map[string]*types.Struct{},
+		abs: map[types.Object]*absParam{}, closures: map[types.Object]closureInfo{}}
+	t.fnBody = fd.Body
+	panics, forever := t.scanShape(fd.Body)
+	if panics && forever {
+		t.fail(fd, "panic and unbounded loop in one function")
+	}
+	t.opt = panics || forever
+	ps, rt, pre := t.signature(fd.Recv, fd.Type)
+	seen := map[string]types.Object{}
+	if t.err == nil {
+		t.checkNames(fd, seen)
+	}
+	body := ""
+	if t.err == nil {
+		body = pre + t.stmts(fd.Body.List, func() string {
+			t.fail(fd, "control reaches the end of the function without return")
+			return "?"
+		})
+	}
+	if t.err != nil {
+		return "", t
+	}
+	params, infos := t.paramList(ps)
+	for _, pi := range infos {
+		for _, v := range pi.views {
+			if _, clash := seen[strings.Join(v.path, "_")]; clash {
+				_ = clash // view names always carry the parameter prefix and an underscore; locals never do (checkNames)
+			}
+		}
+	}
+	g.done[specKey(spec)] = &fnInfo{spec: spec, group: group, opt: t.opt, params: infos}
+	pos := p.fset.Position(fd.Pos())
+	def := fmt.Sprintf("/-- %s/%s:%d `%s` -/\n", spec.dir, spec.file, pos.Line, spec.name)
+	for _, h := range t.helpers {
+		def += strings.ReplaceAll(h, "Option RESULT", "Option ("+rt.lean()+")") + "\n"
+	}
+	def += fmt.Sprintf("def %s %s : %s :=\n%s\n", spec.lean, params, resultType(rt, t.opt), indent(body))
+	return def, t
+}
+
+// closureTable translates `func f(outer..) []T { a := func(..)..{..}; ...; return []T{a, b, ...} }`.
+func (g *generator) closureTable(p *pkgInfo, spec fnSpec, group int, fd *ast.FuncDecl) (string, *tr) {
+	t := &tr{g: g, p: p, spec: spec, group: group, structs: map[string]*types.Struct{}, locals: map[string]*types.Struct{},
+		abs: map[types.Object]*absParam{}, closures: map[types.Object]closureInfo{}}
+	var outerPs []sigParam
+	for _, fl := range fd.Type.Params.List {
+		for _, n := range fl.Names {
 			obj := p.info.Defs[n]
 			lt := t.ltypeOf(obj.Type())
-			if lt.c == tBad {
-				t.fail(n, "parameter type %s", obj.Type())
+			if lt.c == tBad || lt.c == tStruct {
+				t.fail(n, "closure table parameter type %s", obj.Type())
 			}
-			params = append(params, fmt.Sprintf("(%s : %s)", safe(n.Name), lt.lean()))
+			outerPs = append(outerPs, sigParam{obj: obj, name: safe(n.Name), ty: lt})
 		}
-		if fd.Recv != nil {
-			for _, n := range fd.Recv.List[0].Names {
-				addParam(n)
-			}
+	}
+	if fd.Recv != nil || len(fd.Body.List) < 2 {
+		t.fail(fd, "closure table shape")
+	}
+	if t.err != nil {
+		return "", t
+	}
+	outerParams, _ := t.paramList(outerPs)
+	var outerArgs []string
+	for _, op := range outerPs {
+		outerArgs = append(outerArgs, op.name)
+	}
+	pos := p.fset.Position(fd.Pos())
+	def := ""
+	type clo struct {
+		lean   string
+		params []sigParam
+		rt     ltype
+	}
+	clos := map[types.Object]clo{}
+	n := len(fd.Body.List)
+	for _, s := range fd.Body.List[:n-1] {
+		as, ok := s.(*ast.AssignStmt)
+		if !ok || as.Tok != token.DEFINE || len(as.Lhs) != 1 || len(as.Rhs) != 1 {
+			t.fail(s, "closure table: expected `name := func..`")
+			return "", t
 		}
-		for _, fl := range fd.Type.Params.List {
-			for _, n := range fl.Names {
-				addParam(n)
-			}
+		fl, ok := as.Rhs[0].(*ast.FuncLit)
+		id, ok2 := as.Lhs[0].(*ast.Ident)
+		if !ok || !ok2 {
+			t.fail(s, "closure table: expected `name := func..`")
+			return "", t
 		}
-		if fd.Type.Results == nil || len(fd.Type.Results.List) != 1 || len(fd.Type.Results.List[0].Names) > 1 {
-			t.fail(fd, "result list")
+		ct := &tr{g: g, p: p, spec: spec, group: group, structs: t.structs, locals: map[string]*types.Struct{},
+			abs: map[types.Object]*absParam{}, closures: t.closures}
+		ct.spec.lean = spec.lean + "_" + id.Name
+		panics, forever := ct.scanShape(fl.Body)
+		if panics || forever {
+			t.fail(fl, "closure with panic / unbounded loop")
+			return "", t
 		}
-		var rt ltype
-		if t.err == nil {
-			rt = t.ltypeOf(p.info.Types[fd.Type.Results.List[0].Type].Type)
-			if rt.c == tBad {
-				t.fail(fd, "result type")
-			}
+		ps, rt, pre := ct.signature(nil, fl.Type)
+		seen := map[string]types.Object{}
+		for _, op := range outerPs {
+			seen[op.obj.Name()] = op.obj
+		}
+		if ct.err == nil {
+			ct.checkNames(fl, seen)
 		}
 		body := ""
-		if t.err == nil {
-			body = t.stmts(fd.Body.List, func() string {
-				t.fail(fd, "control reaches the end of the function without return")
+		if ct.err == nil {
+			body = pre + ct.stmts(fl.Body.List, func() string {
+				ct.fail(fl, "control reaches the end of the closure without return")
 				return "?"
 			})
 		}
-		if t.err != nil {
-			errs = append(errs, t.err)
-			continue
+		if ct.err != nil {
+			t.err = ct.err
+			return "", t
 		}
-		for n, st := range t.structs {
-			if _, ok := structs[n]; !ok {
-				structs[n] = st
-				structSrc[n] = p
-				order = append(order, n)
+		for _, sp := range ps {
+			if sp.abstract {
+				t.fail(fl, "abstract closure parameter")
+				return "", t
 			}
 		}
-		pos := p.fset.Position(fd.Pos())
-		def := fmt.Sprintf("/-- %s/%s:%d `%s` -/\n", spec.dir, spec.file, pos.Line, spec.name)
-		for _, h := range t.helpers {
+		t.sorder = append(t.sorder, ct.sorder...)
+		own, _ := ct.paramList(ps)
+		lean := spec.lean + "_" + id.Name
+		cpos := p.fset.Position(fl.Pos())
+		def += fmt.Sprintf("/-- %s/%s:%d closure `%s` of `%s` -/\n", spec.dir, spec.file, cpos.Line, id.Name, spec.name)
+		for _, h := range ct.helpers {
 			def += h + "\n"
 		}
-		def += fmt.Sprintf("def %s %s : %s :=\n%s\n", spec.lean, strings.Join(params, " "), rt.lean(), indent(body))
-		defs = append(defs, def)
+		def += fmt.Sprintf("def %s %s %s : %s :=\n%s\n\n", lean, outerParams, own, rt.lean(), indent(body))
+		obj := p.info.Defs[id]
+		t.closures[obj] = closureInfo{lean: lean, outer: outerArgs}
+		clos[obj] = clo{lean: lean, params: ps, rt: rt}
 	}
-	var b strings.Builder
-	b.WriteString("-- GENERATED by /verif/gen from the Go sources of the repository on every check run. Do not edit.\n")
-	b.WriteString("set_option linter.unusedVariables false\nnamespace Gen\n\n")
-	for _, n := range order {
-		st := structs[n]
-		tt := &tr{p: structSrc[n], structs: map[string]*types.Struct{}}
-		fmt.Fprintf(&b, "structure %s where\n", n)
-		for i := 0; i < st.NumFields(); i++ {
-			fmt.Fprintf(&b, "  %s : %s\n", st.Field(i).Name(), tt.ltypeOf(st.Field(i).Type()).lean())
+	rs, ok := fd.Body.List[n-1].(*ast.ReturnStmt)
+	if !ok || len(rs.Results) != 1 {
+		t.fail(fd, "closure table: last statement must return the slice literal")
+		return "", t
+	}
+	cl, ok := rs.Results[0].(*ast.CompositeLit)
+	if !ok || len(cl.Elts) == 0 {
+		t.fail(rs, "closure table: expected a slice literal")
+		return "", t
+	}
+	var first clo
+	var arms []string
+	for i, el := range cl.Elts {
+		id, ok := el.(*ast.Ident)
+		if !ok {
+			t.fail(el, "closure table: element is not a name")
+			return "", t
 		}
-		b.WriteString("deriving Repr, DecidableEq, Inhabited\n\n")
+		c, ok := clos[p.info.Uses[id]]
+		if !ok {
+			t.fail(el, "closure table: %s is not one of the closures", id.Name)
+			return "", t
+		}
+		if i == 0 {
+			first = c
+		} else if len(c.params) != len(first.params) || c.rt.lean() != first.rt.lean() {
+			t.fail(el, "closure table: signatures differ")
+			return "", t
+		}
+		for j := range c.params {
+			if c.params[j].ty.lean() != first.params[j].ty.lean() {
+				t.fail(el, "closure table: signatures differ")
+				return "", t
+			}
+		}
+		var args []string
+		args = append(args, outerArgs...)
+		for _, fp := range first.params {
+			args = append(args, fp.name)
+		}
+		arms = append(arms, fmt.Sprintf("  | %d => %s %s", i, c.lean, strings.Join(args, " ")))
 	}
-	for _, d := range defs {
-		b.WriteString(d)
-		b.WriteString("\n")
+	own, _ := t.paramList(first.params)
+	def += fmt.Sprintf("/-- %s/%s:%d `%s`: element `k` of the returned slice, applied -/\n", spec.dir, spec.file, pos.Line, spec.name)
+	def += fmt.Sprintf("def %s %s (k : Fin %d) %s : %s :=\n  match k with\n%s\n", spec.lean, outerParams, len(cl.Elts), own, first.rt.lean(), strings.Join(arms, "\n"))
+	g.done[specKey(spec)+"#table"] = &fnInfo{spec: spec, group: group}
+	return def, t
+}
+
+func groupFile(gr string) string { return "Funcs" + gr + ".lean" }
+
+// genFuncs returns file name -> content for every group.
+// A group with a failed function is not written at all (the caller keeps the last good file, so that properties that
+// do not depend on the group still build); the error names the group.
+func genFuncs(ld *loader) (map[string]string, []error) {
+	var errs []error
+	fail := func(gr string, err error) { errs = append(errs, fmt.Errorf("[%s] %v", groupFile(gr), err)) }
+	g := &generator{ld: ld, done: map[string]*fnInfo{}, structs: map[string]bool{}}
+	out := map[string]string{}
+	gidx := map[string]int{}
+	for i, gr := range groups {
+		gidx[gr] = i
 	}
-	b.WriteString("end Gen\n")
-	return b.String(), errs
+	for gi, gr := range groups {
+		var defs []string
+		var structDefs []string
+		for _, spec := range whitelist {
+			if spec.group != gr {
+				continue
+			}
+			if _, ok := gidx[spec.group]; !ok {
+				fail(gr, fmt.Errorf("%s.%s: unknown group %q", spec.dir, spec.name, spec.group))
+				continue
+			}
+			p, err := ld.load(spec.dir)
+			if err != nil {
+				fail(gr, fmt.Errorf("%s.%s: %v", spec.dir, spec.name, err))
+				continue
+			}
+			fd := findFunc(p, spec)
+			if fd == nil {
+				fail(gr, fmt.Errorf("%s.%s: function not found in %s/%s", spec.dir, spec.name, spec.dir, spec.file))
+				continue
+			}
+			var def string
+			var t *tr
+			if spec.table {
+				def, t = g.closureTable(p, spec, gi, fd)
+			} else {
+				def, t = g.function(p, spec, gi, fd)
+			}
+			if t.err != nil {
+				fail(gr, t.err)
+				continue
+			}
+			for _, n := range t.sorder {
+				if g.structs[n] {
+					continue
+				}
+				g.structs[n] = true
+				st := t.structs[n]
+				var b strings.Builder
+				fmt.Fprintf(&b, "structure %s where\n", n)
+				for i := 0; i < st.NumFields(); i++ {
+					fmt.Fprintf(&b, "  %s : %s\n", safe(st.Field(i).Name()), t.ltypeOf(st.Field(i).Type()).lean())
+				}
+				b.WriteString("deriving Repr, DecidableEq, Inhabited\n\n")
+				structDefs = append(structDefs, b.String())
+			}
+			defs = append(defs, def)
+		}
+		var b strings.Builder
+		for i := 0; i < gi; i++ {
+			fmt.Fprintf(&b, "import TakVerif.Generated.%s\n", strings.TrimSuffix(groupFile(groups[i]), ".lean"))
+		}
+		b.WriteString("-- GENERATED by /verif/gen from the Go sources of the repository on every check run. Do not edit.\n")
+		b.WriteString("set_option linter.unusedVariables false\nnamespace Gen\n\n")
+		if gi == 1 {
+			b.WriteString(prelude)
+		}
+		for _, s := range structDefs {
+			b.WriteString(s)
+		}
+		for _, d := range defs {
+			b.WriteString(d)
+			b.WriteString("\n")
+		}
+		b.WriteString("end Gen\n")
+		failed := false
+		for _, e := range errs {
+			if strings.HasPrefix(e.Error(), "["+groupFile(gr)+"]") {
+				failed = true
+			}
+		}
+		if !failed {
+			out[groupFile(gr)] = b.String()
+		}
+	}
+	return out, errs
 }
